@@ -390,6 +390,14 @@ func (b *Batch) setFlagWithErr(f RecordFlag, i int, errs []error) {
 				// records in the split record.
 				from, to := b.findSplitRecord(idx)
 				for j := from; j <= to; j++ {
+					if b.recordStatuses[j].Flag == RecordFlagFilter {
+						// A filtered piece stays filtered: overwriting its flag
+						// would make it active again without updating
+						// filterCount, which shifts the active-record indices
+						// every later Nack/Filter/SetRecords call resolves
+						// against (the run is nacked as a whole anyway).
+						continue
+					}
 					b.recordStatuses[j].Flag = f
 					b.recordStatuses[j].Error = err
 				}
